@@ -130,6 +130,10 @@ func (c connectUnaryGetClientProtocol) prepareUnmarshalledRequest(op *operation,
 	} else {
 		msgData = ([]byte)(msgStr)
 	}
+	if limit := int64(op.methodConf.maxMsgBufferBytes); int64(len(msgData)) > limit {
+		// A message in the query string is subject to the same limit as one in a body.
+		return bufferLimitError(limit)
+	}
 	if op.client.reqCompression != nil && len(msgData) > 0 {
 		dst := op.bufferPool.Get()
 		defer op.bufferPool.Put(dst)
